@@ -761,6 +761,8 @@ def parse_unit(path):
             elif w[0] == "item":
                 opts = dict(kv.split("=", 1) for kv in w[3:])
                 cur = ("item", {"file": w[1], "name": w[2], "opts": opts}); unit["parts"].append(cur)
+            elif w[0] == "specs":
+                cur = ("specs", {"unit": w[1], "names": w[2:]}); unit["parts"].append(cur)
             elif w[0] == "use":
                 cur = ("use", {"unit": w[1]}); unit["parts"].append(cur)
             elif w[0] == "fn":
@@ -949,6 +951,56 @@ def splice_fn(fs, stats, canary=False, stub=False):
     return it, header, segs
 
 
+def pull_specs(unit_path, names):
+    """copy named `spec fn` / `proof fn` / `spec const` items verbatim out of the raw sections of another unit"""
+    u = parse_unit(unit_path)
+    raw = "\n".join(part.get("text", "") for kind, part in u["parts"] if kind == "raw")
+    toks = lex(raw)
+    out = []
+    for name in names:
+        found = None
+        for i, t in enumerate(toks):
+            if t.kind == "ident" and t.text == name and i > 0 and toks[i - 1].text in ("fn", "const"):
+                # walk back over modifiers to the start of the item
+                j = i - 1
+                while j > 0 and toks[j - 1].kind == "ident" and toks[j - 1].text in ("pub", "open", "closed", "uninterp", "spec", "proof", "broadcast"):
+                    j -= 1
+                if not any(toks[k].text in ("spec", "proof") for k in range(j, i)):
+                    continue
+                # attributes directly above (#[...]) belong to the item
+                while j >= 4 and toks[j - 1].text == "]":
+                    k = j - 1
+                    d = 0
+                    while k >= 0:
+                        if toks[k].text == "]": d += 1
+                        elif toks[k].text == "[":
+                            d -= 1
+                            if d == 0: break
+                        k -= 1
+                    if k >= 1 and toks[k - 1].text == "#":
+                        j = k - 1
+                    else:
+                        break
+                # end: `;` at depth 0 (uninterp / const) or the matching brace of the body
+                k = i + 1
+                end = None
+                while k < len(toks):
+                    tk = toks[k]
+                    if tk.kind == "punct" and tk.text in "([":
+                        k = match_close(toks, k) + 1; continue
+                    if tk.kind == "punct" and tk.text == ";":
+                        end = tk.end; break
+                    if tk.kind == "punct" and tk.text == "{":
+                        end = toks[match_close(toks, k)].end; break
+                    k += 1
+                found = raw[toks[j].start:end]
+                break
+        if found is None:
+            raise ExtractError("spec item %s not found in unit %s" % (name, unit_path))
+        out.append(found)
+    return "\n\n".join(out) + "\n"
+
+
 def build(unit_path, prelude_paths, canary=False):
     """returns (generated_text, linemap, info) ; linemap[i] (0-based line) = dict(origin=..., fn=..., what=...)"""
     unit = parse_unit(unit_path)
@@ -972,7 +1024,11 @@ def build(unit_path, prelude_paths, canary=False):
         emit(open(p).read() + "\n", {"origin": "prelude", "file": p})
     def process(unit, unit_path, stub):
         for kind, part in unit["parts"]:
-            if kind == "use":
+            if kind == "specs":
+                sub_path = os.path.join(os.path.dirname(unit_path), part["unit"] + ".vu")
+                emit("// ---- spec items copied verbatim from unit %s: %s ----\n" % (part["unit"], " ".join(part["names"])), {"origin": "gen"})
+                emit(pull_specs(sub_path, part["names"]), {"origin": "unit-raw", "file": sub_path, "line": 0})
+            elif kind == "use":
                 sub_path = os.path.join(os.path.dirname(unit_path), part["unit"] + ".vu")
                 sub = parse_unit(sub_path)
                 emit("// ---- contracts imported from unit %s (proved there; bodies replaced by external_body stubs) ----\n" % part["unit"], {"origin": "gen"})
